@@ -3,7 +3,7 @@ From Coq Require Import List Arith ZArith Bool Lia.
 Import ListNotations.
 From Acts.Gen Require Import GenState.
 From Acts.Model Require Import Engine Oracles.
-From Acts.Proofs Require Import EngineBasics TimeoutInv C02Core C05Proofs.
+From Acts.Proofs Require Import EngineBasics TimeoutInv ReviveInv LogInv C02Core C05Proofs.
 Global Arguments emit : simpl never.
 Global Arguments emit_error : simpl never.
 Global Arguments next : simpl never.
@@ -48,13 +48,15 @@ Qed.
 Lemma fire_J e t r : J e -> t < ntasks e ->
   rule_fires (clock e) (t_start (tk e t)) (t_tmo_done (tk e t)) (is_completed (st e t)) r = true -> G e (fire e t r).
 Proof.
-  intros ((HP & HQ & HW & HT) & HX & HQR) Ht Hr. split; [|unfold fire, add_tmo_done; rewrite ntasks_tmod; unfold ntasks; simpl; lia].
-  split; [split; [|split; [|split]]|split].
+  intros ((HP & HQ & HW & HT & HR & HL) & HX & HQR) Ht Hr. split; [|unfold fire, add_tmo_done; rewrite ntasks_tmod; unfold ntasks; simpl; lia].
+  split; [split; [|split; [|split; [|split; [|split]]]]|split].
   - unfold P, fire, add_tmo_done. cbn [trace tmod with_tasks add_ev with_trace]. rewrite forallb_app, HP. reflexivity.
   - intros x Hx. unfold fire, add_tmo_done, st in *. rewrite tk_tmod in *. cbn [tasks add_ev with_trace] in *.
     destruct (Nat.eqb x t && Nat.ltb t (length (tasks e))); [|now apply HQ]. simpl in *. now apply HQ.
   - unfold fire. apply W_tmod; auto.
   - now apply T_fire.
+  - unfold fire, add_tmo_done. apply R_tmod; auto. apply R_add_ev; auto.
+  - unfold fire, add_tmo_done. apply L_tmod; auto. apply L_add_ev; auto.
   - exact HX.
   - intros j Hj. unfold fire, add_tmo_done. rewrite ntasks_tmod. now apply HQR.
 Qed.
@@ -420,11 +422,13 @@ Qed.
 
 Lemma start_J ns c0 : J (start ns c0).
 Proof.
-  split; [split; [|split; [|split]]|split].
+  split; [split; [|split; [|split; [|split; [|split]]]]|split].
   - reflexivity.
   - intros t Ht. unfold start, tk in Ht; cbn in Ht. destruct t as [|[|t]]; cbn in Ht; congruence.
   - intros t Ht. unfold ntasks, start in Ht; cbn in Ht. assert (t = 0) by lia. subst. cbn. exact I.
   - split; [reflexivity | split; [constructor | intros t on []]].
+  - split; [constructor | intros t []].
+  - split; [reflexivity | intros t; unfold start, st, tk; cbn; destruct t as [|[|t]]; reflexivity].
   - reflexivity.
   - intros i [<- | []]. unfold ntasks, start; cbn. lia.
 Qed.
@@ -459,3 +463,68 @@ Qed.
 (* C06: an error code is only ever stored on a task in the error state *)
 Theorem error_only_with_error_state ns c0 ops t : t_err (tk (run ns c0 ops) t) <> None -> st (run ns c0 ops) t = SError.
 Proof. destruct (run_J ns c0 ops) as ((_ & HQ & _) & _). apply HQ. Qed.
+
+(* no task is revived twice: the trace of a run never holds two revival events of one task *)
+Theorem revived_at_most_once ns c0 ops t l1 l2 l3 a1 s1 a2 s2 :
+  trace (run ns c0 ops) = l1 ++ ETrans t SError SRunning a1 s1 :: l2 ++ ETrans t SError SRunning a2 s2 :: l3 -> False.
+Proof.
+  destruct (run_J ns c0 ops) as ((_ & _ & _ & _ & (HN & _) & _) & _). now apply no_second_revival.
+Qed.
+(* a revived task carries the mark of its catch *)
+Theorem revived_is_marked ns c0 ops t a s :
+  In (ETrans t SError SRunning a s) (trace (run ns c0 ops)) -> t_catch_done (tk (run ns c0 ops) t) = true.
+Proof.
+  intros Hin. destruct (run_J ns c0 ops) as ((_ & _ & _ & _ & (_ & HM) & _) & _). apply HM.
+  apply revivals_In. exists SError, SRunning, a, s. split; auto.
+Qed.
+
+(* the trace is a faithful log of the task states *)
+Theorem log_faithful ns c0 ops :
+  logok c_none (trace (run ns c0 ops)) = true /\ forall t, cur c_none (trace (run ns c0 ops)) t = st (run ns c0 ops) t.
+Proof. destruct (run_J ns c0 ops) as ((_ & _ & _ & _ & _ & HL) & _). exact HL. Qed.
+(* every state write starts from the state the task really has: the one its last write gave it *)
+Theorem write_from_current ns c0 ops l1 l2 t o n a s :
+  trace (run ns c0 ops) = l1 ++ ETrans t o n a s :: l2 -> o = cur c_none l1 t.
+Proof.
+  intros E. destruct (log_faithful ns c0 ops) as [H _]. rewrite E in H. apply logok_at in H. simpl in H. now apply is_true_eq.
+Qed.
+(* every message reports the state its task has when it is sent, and that state is neither pending nor running *)
+Theorem message_reports_current ns c0 ops l1 l2 t s i o :
+  trace (run ns c0 ops) = l1 ++ EMsg t s i o :: l2 -> s = cur c_none l1 t /\ s <> SPending /\ s <> SRunning.
+Proof.
+  intros E. destruct (log_faithful ns c0 ops) as [H _]. rewrite E in H. apply logok_at in H. simpl in H.
+  apply andb_true_iff in H as [H H3]. apply andb_true_iff in H as [H1 H2]. split; [now apply is_true_eq|].
+  split; intros ->; simpl in *; discriminate.
+Qed.
+
+(* the state history of a task, read off the log: between two points of a run without a revival of the
+   task in between, its stage never decreases and a terminal state is kept *)
+Lemma history_forward tr : forall c t, logok c tr = true -> forallb legal_ev tr = true -> ~ In t (revivals tr) ->
+  stage (c t) <= stage (cur c tr t) /\ (is_completed (c t) = true -> cur c tr t = c t).
+Proof.
+  induction tr as [|x tr IH]; intros c t Hl Hp Hr; [simpl; split; auto|].
+  cbn [logok forallb cur] in *.
+  apply andb_true_iff in Hl as [Hx Hl]. apply andb_true_iff in Hp as [Px Pp].
+  assert (Hr' : ~ In t (revivals tr)).
+  { intros Hin. apply Hr. destruct x; cbn [revivals]; auto. destruct (revive _ _); [now right | exact Hin]. }
+  destruct (IH (cstep c x) t Hl Pp Hr') as [I1 I2].
+  assert (Hs : stage (c t) <= stage (cstep c x t) /\ (is_completed (c t) = true -> cstep c x t = c t)).
+  { destruct x as [| t' o n a s | | | | | |]; try (simpl; split; auto; fail).
+    cbn [cstep]. destruct (Nat.eqb_spec t t') as [<- | Hne]; [|split; auto].
+    cbn [evok] in Hx. apply is_true_eq in Hx. subst o. cbn [legal_ev] in Px.
+    destruct (revive (c t) n) eqn:Er.
+    - exfalso. apply Hr. cbn [revivals]. rewrite Er. now left.
+    - rewrite orb_false_r in Px. now apply legal_meaning. }
+  destruct Hs as [S1 S2]. split; [lia|].
+  intros Hc. rewrite I2; [now apply S2 | now rewrite S2].
+Qed.
+Theorem states_only_move_forward ns c0 ops l1 l2 t :
+  trace (run ns c0 ops) = l1 ++ l2 -> ~ In t (revivals l2) ->
+  stage (cur c_none l1 t) <= stage (st (run ns c0 ops) t) /\
+  (is_completed (cur c_none l1 t) = true -> st (run ns c0 ops) t = cur c_none l1 t).
+Proof.
+  intros E Hr. destruct (log_faithful ns c0 ops) as [Hl Hc].
+  destruct (run_J ns c0 ops) as ((HP & _) & _). unfold P in HP. rewrite E in Hl, HP.
+  rewrite logok_app in Hl. apply andb_true_iff in Hl as [_ Hl]. rewrite forallb_app in HP. apply andb_true_iff in HP as [_ HP].
+  rewrite <- Hc, E, cur_app. now apply history_forward.
+Qed.
